@@ -1,15 +1,171 @@
-(* C07 — every surface form means exactly its documented core expansion.  (theorems are being added) *)
+(* C07 — every surface form means exactly its documented core expansion.
+   Property theorems only; proofs in Syntax/{DisjProof,PatProof,WildProof,NegProof,RepProof,Names,PassLemmas,
+   DesugarProofs,CoreProof,C07Main,C07Refuted,C07Example}.v.
+
+   Surface language and its DIRECT denotation: Syntax/Surface.v (disjunction = some disjunct; ?pat = the column
+   matches the pattern; _ = any value; repeated variable / expression = equality with the column; !r(..) = no matching
+   tuple; several heads = each head; no body = unconditional).  Model of the macro: Syntax/Desugar.v
+   (desugar_ascent_program pass by pass, the two per-rule GenSym supplies and the process-wide IDENT_COUNTERS as an
+   explicit, arbitrary initial state [cs]).  Core language and specification semantics: Engine/Core.v, Engine/Sem.v;
+   Syntax/ToCore.v numbers the identifiers of a desugared rule (core variables are numbers). *)
 From Coq Require Import List ZArith Bool String Ascii.
-From AV Require Import Engine.Core Engine.Sem Engine.Vocab.
+From AV Require Import Engine.Core.
+From AV Require Import Engine.Sem.
+From AV Require Import Engine.Strat.
+From AV Require Import Engine.StratFixed.
+From AV Require Import Engine.Vocab.
 From AV Require Import Syntax.Surface.
 From AV Require Import Syntax.Desugar.
 From AV Require Import Syntax.ToCore.
+From AV Require Import Syntax.SimBase.
+From AV Require Import Syntax.Names.
+From AV Require Import Syntax.DisjProof.
+From AV Require Import Syntax.NegProof.
+From AV Require Import Syntax.SimRel.
+From AV Require Import Syntax.PatProof.
+From AV Require Import Syntax.WildProof.
+From AV Require Import Syntax.RepProof.
+From AV Require Import Syntax.DesugarProofs.
+From AV Require Import Syntax.CoreProof.
+From AV Require Import Syntax.C07Main.
+From AV Require Import Syntax.C07Refuted.
+From AV Require Import Syntax.C07Vocab.
+From AV Require Import Syntax.C07Example.
+From AV Require Import Syntax.Show.
 Import ListNotations.
 
-(* res(x, x_) <-- foo(x, x, x_): the generated name x_ captures the user's x_ *)
-Definition c07_f9 : srule :=
-  {| sheads := [(1%nat, [SVar (i "x"); SVar (i "x_")])];
-     sbody := [IClause 0%nat [AT (SVar (i "x")); AT (SVar (i "x")); AT (SVar (i "x_"))] []] |}.
-Example c07_f9_not_wf : wf_surface [c07_f9] = false.
-Proof. vm_compute. reflexivity. Qed.
-Print Assumptions c07_f9_not_wf.
+(* MAIN THEOREM.  For every interpretation of the expression / pattern / aggregator symbols in which `==` is equality,
+   not() is negation and `let` evaluates its expression ([interp_ok]), every surface program whose identifiers lie
+   outside the generated name space of their rule, whose expression arguments only mention variables bound earlier and
+   whose pattern variables are not argument variables of their own clause ([wf_surface], decidable), EVERY state [cs] of
+   the process-wide name counters: the desugared program translates to the core language, and for every fact set the
+   surface rules (direct denotation) derive exactly the facts the desugared core rules derive (Engine/Sem.v derives);
+   so a fact set is closed under the one iff it is closed under the other. *)
+Theorem c07_desugar_derives : forall (I : interp) P cs, wf_surface P = true -> interp_ok I (prog_fsyms P) ->
+  exists Pc, core_of_prog (desugar_prog cs P) = Some Pc /\ forall F f, sderives I P F f <-> derives I Pc F f.
+Proof. exact desugar_derives. Qed.
+Theorem c07_desugar_correct : forall (I : interp) P cs, wf_surface P = true -> interp_ok I (prog_fsyms P) ->
+  exists Pc, core_of_prog (desugar_prog cs P) = Some Pc /\ forall F, sclosed I P F <-> closed I Pc F.
+Proof. exact desugar_correct. Qed.
+(* hence the same least models and, stratum by stratum (aggregated relations held fixed), the same stratified models *)
+Theorem c07_same_models : forall (I : interp) P cs, wf_surface P = true -> interp_ok I (prog_fsyms P) ->
+  exists Pc, core_of_prog (desugar_prog cs P) = Some Pc
+    /\ (forall F0 M, sleast_model I P F0 M <-> least_model I Pc F0 M)
+    /\ (forall F0 M, sleast_model_fixed I (stratum_agg_rels Pc) P F0 M <-> least_model_fixed I Pc F0 M).
+Proof. exact desugar_models. Qed.
+
+(* ONE LEMMA PER PASS. *)
+(* pass 1, disjunctions (nested): a rule derives exactly the union of what the rules of its disjunction product derive *)
+Theorem c07_disjunction_product : forall I db r f,
+  In f (sderive_rule I db r) <-> exists r', In r' (rule_desugar_disj r) /\ In f (sderive_rule I db r').
+Proof. exact rule_desugar_disj_sem. Qed.
+(* pass 4, negation: !r(args) is `agg () = not() in r(args)` *)
+Theorem c07_negation : forall I db, (forall ts, aint I agg_not_sym ts = match ts with [] => [0%Z] | _ => [] end) ->
+  forall r, sderive_rule I db (rule_desugar_neg r) = sderive_rule I db r.
+Proof. exact rule_desugar_neg_sem. Qed.
+(* passes 2, 3, 5 introduce names; each is a simulation of environments: [X] = the names of the pass, [srel X T e e'] =
+   e and e' agree outside X and the names T still to be generated are unbound in e'; [sim2 R l l'] = every environment
+   of l has an R-related one in l' and conversely.  [gen_trace g ks] = the names the supply hands out from state g for
+   the requests ks ([pkeys] / [wkeys] / [rkeys]: the requests of the pass, independent of the counters). *)
+Theorem c07_pass_pattern_args : forall I db (X : ident -> Prop) items g e e',
+  Forall no_disj items -> pats_ok items = true -> (forall y, In y (items_ids items) -> ~ X y) ->
+  NoDup (gen_trace g (pkeys items)) -> (forall y, In y (gen_trace g (pkeys items)) -> X y) ->
+  srel X (gen_trace g (pkeys items)) e e' ->
+  sim2 (srel X []) (all_envs_s I db items e) (all_envs_s I db (pat_items g items) e').
+Proof. exact pat_items_sim. Qed.
+Theorem c07_pass_wildcards : forall I db (X : ident -> Prop) items g e e',
+  Forall no_disj items -> (forall y, In y (items_ids items) -> ~ X y) ->
+  NoDup (gen_trace g (wkeys items)) -> (forall y, In y (gen_trace g (wkeys items)) -> X y) ->
+  srel X (gen_trace g (wkeys items)) e e' ->
+  sim2 (srel X []) (all_envs_s I db items e) (all_envs_s I db (wild_items g items) e').
+Proof. exact wild_items_sim. Qed.
+Theorem c07_pass_repeated_vars : forall I db (X : ident -> Prop) items G cs0 e e' B,
+  Forall no_disj items -> Forall clause_AT items -> (forall y, In y (items_ids items) -> ~ X y) ->
+  NoDup (gen_trace cs0 (rkeys G items)) -> (forall y, In y (gen_trace cs0 (rkeys G items)) -> X y) ->
+  scoped B items = true -> bnd B e -> srel X (gen_trace cs0 (rkeys G items)) e e' ->
+  sim2 (srel X []) (all_envs_s I db items e) (all_envs_s I db (fst (rep_items G cs0 items)) e').
+Proof. exact rep_items_sim. Qed.
+(* passes 2-5 on a disjunction-free rule (pattern arguments -> wildcards -> negation -> repeated variables / same-clause
+   expressions), for every counter state: same derived facts, same heads, result in the core fragment.  [L0] = the
+   identifiers of the source rule. *)
+Theorem c07_pass_pipeline : forall I db, (forall ts, aint I agg_not_sym ts = match ts with [] => [0%Z] | _ => [] end) ->
+  forall (L0 : list ident) hs b cs,
+  (forall s, In s L0 -> name_ok L0 s = true) -> incl (items_ids b) L0 -> incl (heads_ids hs) L0 ->
+  Forall no_disj b -> pats_ok b = true -> scoped [] b = true -> conds_okb b = true ->
+  let r4 := fst (rule_desugar_rep cs (pre_rep {| sheads := hs; sbody := b |})) in
+  same_facts (sderive_rule I db {| sheads := hs; sbody := b |}) (sderive_rule I db r4)
+  /\ sheads r4 = hs /\ Forall core_frag_item (sbody r4) /\ incl (rule_eq_fsyms r4) (items_fsyms b).
+Proof. exact conj_pipeline. Qed.
+(* the desugared fragment means the same in the core language of the engine theorems (C01/C04) *)
+Theorem c07_core_translation : forall (I : interp) (db : rel -> list tuple) r c,
+  (forall a b, pint I eq_pred_sym [a; b] = Z.eqb a b) ->
+  (forall f vs, In f (rule_eq_fsyms r) -> bint I f vs = Some (fint I f vs)) ->
+  core_of_rule r = Some c ->
+  forall f, In f (sderive_rule I db r) <-> In f (derive_rule I db c).
+Proof. exact core_of_rule_sem. Qed.
+
+(* FRESHNESS OF THE NAME SUPPLIES.  Names requested in sequence from a supply are pairwise distinct whatever the initial
+   counters; a generated name determines its stem; under name_ok no identifier of the rule has a fixed stem, and a name
+   of the process-wide supply is neither an identifier of the rule nor a pattern / wildcard name. *)
+Theorem c07_supply_distinct : forall ks g, NoDup (gen_trace g ks).
+Proof. exact gen_trace_nodup. Qed.
+Theorem c07_supply_stem : forall ks g w, In w (gen_trace g ks) -> exists q, In q ks /\ parse_gen w = Some q.
+Proof. exact gen_trace_stem. Qed.
+Theorem c07_fresh_pattern_wildcard_names : forall L0, (forall s, In s L0 -> name_ok L0 s = true) ->
+  forall y k, In k fixed_stems -> parse_gen y = Some k -> ~ In y L0.
+Proof. exact fresh_fixed. Qed.
+Theorem c07_fresh_repeated_var_names : forall L0, (forall s, In s L0 -> name_ok L0 s = true) ->
+  forall y p Tp Tw, parse_gen y = Some p ->
+  (forall z, In z Tp -> parse_gen z = Some arg_pattern_key) -> (forall z, In z Tw -> parse_gen z = Some wild_key) ->
+  (In p L0 \/ In p Tp \/ In p Tw \/ p = expr_replaced_key) ->
+  ~ In y L0 /\ ~ In y Tp /\ ~ In y Tw.
+Proof. exact fresh_rep. Qed.
+
+(* REFUTED without the guard (known finding generated_names_capture_user_identifiers): generated names are ordinary
+   identifiers.  res(x) <-- foo(x, _), bar(__1)  /  res(x) <-- foo(x, ?pat), bar(__arg_pattern_)  /
+   res(x, x_) <-- foo(x, x, x_) (DESIGN F9)  /  the same with x_3 when the counter of "x" stands at 3:
+   the program is not wf, the surface rule derives a fact that the desugared program does not. *)
+Theorem c07_refuted_wildcard_capture : captured w_wild [] [(0%nat, [1; 2]); (1%nat, [5])]%Z (2%nat, [1]%Z).
+Proof. exact wild_capture. Qed.
+Theorem c07_refuted_pattern_capture : captured w_pat [] [(0%nat, [1; 2]); (1%nat, [5])]%Z (2%nat, [1]%Z).
+Proof. exact pat_capture. Qed.
+Theorem c07_refuted_fresh_capture : captured w_rep [] [(0%nat, [1; 1; 2])]%Z (2%nat, [1; 2]%Z).
+Proof. exact rep_capture. Qed.
+Theorem c07_refuted_fresh_capture_numbered : captured w_rep3 [(i "x", 3%nat)] [(0%nat, [1; 1; 2])]%Z (2%nat, [1; 2]%Z).
+Proof. exact rep_capture_numbered. Qed.
+Theorem c07_refuted_freshness : In (fst (fresh_ident [] (i "x"))) (rule_ids w_rep).
+Proof. exact fresh_ident_not_fresh. Qed.
+Theorem c07_refuted_unguarded :
+  ~ (forall P cs Pc F, core_of_prog (desugar_prog cs P) = Some Pc -> (sclosed std_interp P F <-> closed std_interp Pc F)).
+Proof. exact desugar_correct_unguarded_refuted. Qed.
+
+(* FORMS THAT DESUGARING LEAVES ALONE (they are core forms): several head clauses = one rule per head clause;
+   no body = the heads evaluated in the empty environment, whatever the relations contain. *)
+Theorem c07_multi_head : forall I db hs b f,
+  In f (sderive_rule I db {| sheads := hs; sbody := b |}) <-> exists h, In h hs /\ In f (sderive_rule I db {| sheads := [h]; sbody := b |}).
+Proof. exact multi_head_rule. Qed.
+Theorem c07_bodyless : forall I db hs, sderive_rule I db {| sheads := hs; sbody := [] |} = filter_map (seval_head I sempty) hs ++ [].
+Proof. exact bodyless_rule. Qed.
+
+(* NON-VACUITY: a well-formed program using every surface form (nested disjunction, binding and literal patterns,
+   wildcard, repeated variable, same-clause expression, negation, two heads, a fact, a clause condition), the vocabulary
+   of the correspondence runs satisfies interp_ok, and the two fix-points coincide by computation *)
+Example c07_example_hypotheses : wf_surface ex_prog = true /\ interp_ok c07_interp (prog_fsyms ex_prog).
+Proof. exact (conj ex_wf ex_interp_ok). Qed.
+Example c07_example_runs :
+  exists Pc, core_of_prog (desugar_prog [] ex_prog) = Some Pc /\ List.length Pc = 4%nat
+    /\ exists M, sstrat_fix c07_interp 20 [[ex_fact]; [ex_rule]] ex_input = Some M
+         /\ strat_fix c07_interp 20 [firstn 1 Pc; skipn 1 Pc] ex_input = Some M
+         /\ List.length M = 20%nat.
+Proof. exact ex_runs. Qed.
+
+Print Assumptions c07_desugar_derives. Print Assumptions c07_desugar_correct. Print Assumptions c07_same_models.
+Print Assumptions c07_disjunction_product. Print Assumptions c07_negation. Print Assumptions c07_pass_pipeline.
+Print Assumptions c07_pass_pattern_args. Print Assumptions c07_pass_wildcards. Print Assumptions c07_pass_repeated_vars.
+Print Assumptions c07_core_translation. Print Assumptions c07_supply_distinct. Print Assumptions c07_supply_stem.
+Print Assumptions c07_fresh_pattern_wildcard_names. Print Assumptions c07_fresh_repeated_var_names.
+Print Assumptions c07_refuted_wildcard_capture. Print Assumptions c07_refuted_pattern_capture.
+Print Assumptions c07_refuted_fresh_capture. Print Assumptions c07_refuted_fresh_capture_numbered.
+Print Assumptions c07_refuted_freshness. Print Assumptions c07_refuted_unguarded.
+Print Assumptions c07_multi_head. Print Assumptions c07_bodyless.
+Print Assumptions c07_example_hypotheses. Print Assumptions c07_example_runs.
